@@ -106,6 +106,13 @@ def check(pid, tier, seed, replay=None):
                             for form in (item + tail, b"\xbf\x61k" + item + tail + b"\xff"):
                                 ops.append({"a": "Input", "id": "beyond%d" % k, "hex": form.hex(), "abs": []})
                                 k += 1
+            # strings full of bytes that are not UTF-8 (every one becomes a six-byte escape): the output stays proportional
+            for n in (1024, 4096, 16384):
+                body = (b"a\xff" * (n // 2))[:n]
+                for hd in (0x79, 0x59):     # text string / byte string, two-byte length
+                    item = bytes([hd]) + n.to_bytes(2, "big") + body
+                    ops.append({"a": "Input", "id": "badutf%d" % k, "hex": (b"\xbf\x61k" + item + b"\xff").hex(), "abs": []})
+                    k += 1
             for i, s in enumerate(seqs):
                 for rep in range(2 if thorough else 1):
                     ops.append({"a": "Input", "id": "gen%d_%d" % (i, rep), "hex": concretise(rng, s).hex(), "abs": s})
